@@ -240,6 +240,18 @@ func (g *tgen) valAt(inItem bool) interface{} {
 	case 2:
 		return ""
 	case 3:
+		// numbers of the other Go types data may carry (a float32 that is no dyadic fraction prints with the digits
+		// of a float32, not of the float64 it widens to)
+		switch r.intn(5) {
+		case 0:
+			return float32(r.intn(2000)) / 100
+		case 1:
+			return int64(r.intn(1000)) - 500
+		case 2:
+			return uint16(r.intn(70000) % 65536)
+		case 3:
+			return int32(-r.intn(50))
+		}
 		return float64(r.intn(50)) / 4
 	case 4:
 		return []string{"x y", " lead", "trail ", "multi\nline", "<&>", "{single}"}[r.intn(6)]
